@@ -2,6 +2,7 @@
 //! fixpoint, with per-transition oracles and per-state observer suites.
 
 use std::collections::{BTreeMap, HashMap};
+use std::sync::Arc;
 use std::time::Instant;
 
 use crate::arena::{is_canonical, shape_key, state_key, walk, KeyOpts, Walk};
@@ -12,12 +13,32 @@ use crate::sut::Sut;
 use crate::universe::Universe;
 use crate::viol::{guarded, pending_begin, pending_end, Viol};
 
+pub use crate::viol::PendingInfo;
+
 pub struct St<S: Sut> {
     pub map: S,
     pub model: Model,
     pub walk: Walk,
     pub key: Box<[u8]>,
     pub depth: u32,
+    /// the operation sequence that produced this state (shared linked list)
+    pub hist: Option<Arc<HistNode>>,
+}
+
+pub struct HistNode {
+    pub op: Op,
+    pub parent: Option<Arc<HistNode>>,
+}
+
+pub fn history_of(h: &Option<Arc<HistNode>>) -> Vec<Op> {
+    let mut v = vec![];
+    let mut cur = h.as_ref();
+    while let Some(n) = cur {
+        v.push(n.op);
+        cur = n.parent.as_ref();
+    }
+    v.reverse();
+    v
 }
 
 /// a per-state observer suite: returns violations and the number of evaluations it performed
@@ -39,6 +60,9 @@ pub struct Config {
     pub known: Vec<(String, String, String)>,
     /// worker slot offset for the pending-call watchdog
     pub worker_base: usize,
+    pub deep: bool,
+    /// label of the run (type, universe, alphabet) for reports and stall messages
+    pub run_label: String,
 }
 
 #[derive(Clone, Debug)]
@@ -172,13 +196,15 @@ pub fn post_check<S: Sut>(map: &S, model: &Model, before: &St<S>, op: Op, uni: &
 struct Cand<S: Sut> {
     parent: u32,
     op_idx: u32,
-    op: Op,
     st: St<S>,
 }
 
+type Sig = (String, String, String);
+
 struct Partial<S: Sut> {
     cands: Vec<Cand<S>>,
-    viols: Vec<(Viol, u32, Option<Op>, String)>,
+    /// per signature: occurrences and the least (history length, history) witness
+    viols: HashMap<Sig, (u64, Found)>,
     transitions: u64,
     self_loops: u64,
     observer_evals: u64,
@@ -186,6 +212,41 @@ struct Partial<S: Sut> {
     pruned: u64,
     known_hits: BTreeMap<String, u64>,
     max_arena_len: usize,
+}
+
+impl<S: Sut> Partial<S> {
+    fn new() -> Self {
+        Partial {
+            cands: vec![],
+            viols: HashMap::new(),
+            transitions: 0,
+            self_loops: 0,
+            observer_evals: 0,
+            op_counts: BTreeMap::new(),
+            pruned: 0,
+            known_hits: BTreeMap::new(),
+            max_arena_len: 0,
+        }
+    }
+    fn record(&mut self, v: Viol, st: &St<S>, op: Option<Op>, at: &str) {
+        let sig = (v.prop.to_string(), v.site.clone(), v.cond.clone());
+        match self.viols.get_mut(&sig) {
+            Some(e) => {
+                e.0 += 1;
+                let len = st.depth as usize + op.is_some() as usize;
+                if len < e.1.history.len() {
+                    let mut h = history_of(&st.hist);
+                    h.extend(op);
+                    e.1 = Found { viol: v, history: h, at: at.to_string(), occurrences: 0 };
+                }
+            }
+            None => {
+                let mut h = history_of(&st.hist);
+                h.extend(op);
+                self.viols.insert(sig, (1, Found { viol: v, history: h, at: at.to_string(), occurrences: 0 }));
+            }
+        }
+    }
 }
 
 pub fn initial<S: Sut>(uni: &Universe, key_opts: KeyOpts) -> St<S> {
@@ -199,6 +260,7 @@ pub fn initial<S: Sut>(uni: &Universe, key_opts: KeyOpts) -> St<S> {
         walk: w,
         key,
         depth: 0,
+        hist: None,
     }
 }
 
@@ -206,6 +268,7 @@ fn is_known(cfg: &Config, v: &Viol) -> bool {
     cfg.known.iter().any(|(p, s, c)| p == v.prop && *s == v.site && *c == v.cond)
 }
 
+#[allow(clippy::too_many_arguments)]
 fn expand<S: Sut>(
     id: u32,
     st: &St<S>,
@@ -217,20 +280,25 @@ fn expand<S: Sut>(
     part: &mut Partial<S>,
     worker: usize,
 ) {
-    let cx = Cx { uni };
+    let cx = Cx { uni, canonical: cfg.alpha == Alphabet::Canonical, deep: cfg.deep };
     // per-state observers
     for (name, f) in observers {
-        pending_begin(worker, || format!("observer {name} on state {id}"));
+        pending_begin(worker, PendingInfo { run: cfg.run_label.clone(), hist: st.hist.clone(), op: None, at: name });
         let r = guarded(|| f(st, &cx));
         pending_end(worker);
+        let at = format!("observer:{name}");
         match r {
             Ok((vs, n)) => {
                 part.observer_evals += n;
                 for v in vs {
-                    part.viols.push((v, id, None, format!("observer:{name}")));
+                    if is_known(cfg, &v) {
+                        *part.known_hits.entry(format!("{} {} {}", v.prop, v.site, v.cond)).or_default() += 1;
+                    } else {
+                        part.record(v, st, None, &at);
+                    }
                 }
             }
-            Err(msg) => part.viols.push((Viol::new("C20", format!("observer:{name}"), "panic", msg), id, None, format!("observer:{name}"))),
+            Err(msg) => part.record(Viol::new("C20", at.clone(), "panic", msg), st, None, &at),
         }
     }
     let ops = S::enumerate_ops(uni, &st.model, cfg.alpha, cfg.two_reps, cfg.retain_all_subsets);
@@ -239,7 +307,7 @@ fn expand<S: Sut>(
         let mut map = st.map.clone();
         let mut model = st.model.clone();
         let tok = (st.depth + 1) * 1000;
-        pending_begin(worker, || format!("op {} on state {id}", op.describe(uni)));
+        pending_begin(worker, PendingInfo { run: cfg.run_label.clone(), hist: st.hist.clone(), op: Some(op), at: "transition" });
         let r = guarded(|| {
             let vs = map.apply(&mut model, &st.walk, op, tok, &cx);
             let (mut vs2, wk) = post_check(&map, &model, st, op, uni, cfg.key_opts);
@@ -253,7 +321,7 @@ fn expand<S: Sut>(
         match r {
             Err(msg) => {
                 // the map may be in an arbitrary state: do not expand it
-                part.viols.push((Viol::new("C20", format!("{:?}", op.kind), "panic", format!("{} panicked: {msg}", op.describe(uni))), id, Some(op), "transition".into()));
+                part.record(Viol::new("C20", format!("{:?}", op.kind), "panic", format!("{} panicked: {msg}", op.describe(uni))), st, Some(op), "transition");
                 part.pruned += 1;
             }
             Ok((vs, wk)) => {
@@ -267,7 +335,7 @@ fn expand<S: Sut>(
                         if v.prop == "C15" || v.prop == "C16" || v.prop == "C04" {
                             prune = true;
                         }
-                        part.viols.push((v, id, Some(op), "transition".into()));
+                        part.record(v, st, Some(op), "transition");
                     }
                 }
                 let Some((w, key)) = wk else {
@@ -286,99 +354,70 @@ fn expand<S: Sut>(
                 if visited.contains_key(&key) {
                     continue;
                 }
+                let mk = |map: S, model: Model, w: Walk, key: Box<[u8]>| St {
+                    map,
+                    model,
+                    walk: w,
+                    key,
+                    depth: st.depth + 1,
+                    hist: Some(Arc::new(HistNode { op, parent: st.hist.clone() })),
+                };
                 if let Some(&ci) = local_new.get(&key) {
                     // keep the least (parent, op_idx)
                     let c = &part.cands[ci];
                     if (c.parent, c.op_idx) <= (id, op_idx as u32) {
                         continue;
                     }
-                    part.cands[ci] = Cand {
-                        parent: id,
-                        op_idx: op_idx as u32,
-                        op,
-                        st: St { map, model, walk: w, key, depth: st.depth + 1 },
-                    };
+                    part.cands[ci] = Cand { parent: id, op_idx: op_idx as u32, st: mk(map, model, w, key) };
                     continue;
                 }
                 local_new.insert(key.clone(), part.cands.len());
-                part.cands.push(Cand {
-                    parent: id,
-                    op_idx: op_idx as u32,
-                    op,
-                    st: St { map, model, walk: w, key, depth: st.depth + 1 },
-                });
+                part.cands.push(Cand { parent: id, op_idx: op_idx as u32, st: mk(map, model, w, key) });
             }
         }
     }
 }
 
-pub fn history(meta: &[(u32, Option<Op>)], mut id: u32) -> Vec<Op> {
-    let mut h = vec![];
-    while let (p, Some(op)) = meta[id as usize] {
-        h.push(op);
-        id = p;
-    }
-    h.reverse();
-    h
-}
-
 pub fn explore<S: Sut>(uni: &Universe, cfg: &Config, observers: &[(&'static str, Observer<S>)]) -> Report {
     let t0 = Instant::now();
     let mut rep = Report {
-        run: format!("{} {} {} {:?}", S::KIND, <S::P as PType>::NAME, uni.name, cfg.alpha),
+        run: cfg.run_label.clone(),
         exhaustive: true,
         ..Default::default()
     };
     let mut visited: HashMap<Box<[u8]>, u32> = HashMap::new();
-    let mut meta: Vec<(u32, Option<Op>)> = vec![];
     let mut shapes: std::collections::HashSet<Box<[u8]>> = Default::default();
     let init: St<S> = initial(uni, cfg.key_opts);
     visited.insert(init.key.clone(), 0);
-    meta.push((0, None));
     shapes.insert(shape_key(&init.walk, uni));
     rep.canonical_states += 1;
     let mut frontier: Vec<(u32, St<S>)> = vec![(0, init)];
-    let mut sig_index: HashMap<(String, String, String), usize> = HashMap::new();
+    let mut all_viols: HashMap<Sig, (u64, Found)> = HashMap::new();
     let mut stop = false;
     while !frontier.is_empty() && !stop {
         rep.layers += 1;
         let threads = cfg.threads.max(1).min(frontier.len().max(1));
-        let mut parts: Vec<Partial<S>> = Vec::new();
-        {
-            let visited_ref = &visited;
-            let frontier_ref = &frontier;
-            let results: Vec<Partial<S>> = std::thread::scope(|s| {
-                let mut hs = vec![];
-                for t in 0..threads {
-                    hs.push(s.spawn(move || {
-                        let mut part = Partial {
-                            cands: vec![],
-                            viols: vec![],
-                            transitions: 0,
-                            self_loops: 0,
-                            observer_evals: 0,
-                            op_counts: BTreeMap::new(),
-                            pruned: 0,
-                            known_hits: BTreeMap::new(),
-                            max_arena_len: 0,
-                        };
-                        let mut local_new: HashMap<Box<[u8]>, usize> = HashMap::new();
-                        let mut i = t;
-                        while i < frontier_ref.len() {
-                            let (id, st) = &frontier_ref[i];
-                            expand(*id, st, cfg, uni, observers, visited_ref, &mut local_new, &mut part, cfg.worker_base + t);
-                            i += threads;
-                        }
-                        part
-                    }));
-                }
-                hs.into_iter().map(|h| h.join().expect("explorer worker died")).collect()
-            });
-            parts.extend(results);
-        }
+        let visited_ref = &visited;
+        let frontier_ref = &frontier;
+        let parts: Vec<Partial<S>> = std::thread::scope(|s| {
+            let mut hs = vec![];
+            for t in 0..threads {
+                hs.push(s.spawn(move || {
+                    let mut part = Partial::new();
+                    let mut local_new: HashMap<Box<[u8]>, usize> = HashMap::new();
+                    let mut i = t;
+                    while i < frontier_ref.len() {
+                        let (id, st) = &frontier_ref[i];
+                        expand(*id, st, cfg, uni, observers, visited_ref, &mut local_new, &mut part, cfg.worker_base + t);
+                        i += threads;
+                    }
+                    part
+                }));
+            }
+            hs.into_iter().map(|h| h.join().expect("explorer worker died")).collect()
+        });
         // merge deterministically
         let mut cands: Vec<Cand<S>> = vec![];
-        let mut viols = vec![];
         for mut p in parts {
             rep.transitions += p.transitions;
             rep.self_loops += p.self_loops;
@@ -392,23 +431,21 @@ pub fn explore<S: Sut>(uni: &Universe, cfg: &Config, observers: &[(&'static str,
                 *rep.known_hits.entry(k).or_default() += v;
             }
             cands.append(&mut p.cands);
-            viols.append(&mut p.viols);
-        }
-        viols.sort_by(|a, b| (a.1, a.2, &a.0).cmp(&(b.1, b.2, &b.0)));
-        for (v, id, op, at) in viols {
-            let sig = (v.prop.to_string(), v.site.clone(), v.cond.clone());
-            if cfg.stop_props.iter().any(|p| p == v.prop) {
-                stop = true;
-            }
-            if let Some(&i) = sig_index.get(&sig) {
-                rep.found[i].occurrences += 1;
-            } else {
-                let mut h = history(&meta, id);
-                if let Some(op) = op {
-                    h.push(op);
+            for (sig, (cnt, f)) in p.viols {
+                if cfg.stop_props.iter().any(|p| *p == sig.0) {
+                    stop = true;
                 }
-                sig_index.insert(sig, rep.found.len());
-                rep.found.push(Found { viol: v, history: h, at, occurrences: 1 });
+                match all_viols.get_mut(&sig) {
+                    Some(e) => {
+                        e.0 += cnt;
+                        if (f.history.len(), &f.history, &f.viol) < (e.1.history.len(), &e.1.history, &e.1.viol) {
+                            e.1 = f;
+                        }
+                    }
+                    None => {
+                        all_viols.insert(sig, (cnt, f));
+                    }
+                }
             }
         }
         cands.sort_by_key(|c| (c.parent, c.op_idx));
@@ -417,14 +454,13 @@ pub fn explore<S: Sut>(uni: &Universe, cfg: &Config, observers: &[(&'static str,
             if visited.contains_key(&c.st.key) {
                 continue;
             }
-            let id = meta.len() as u32;
+            let id = visited.len() as u32;
             visited.insert(c.st.key.clone(), id);
-            meta.push((c.parent, Some(c.op)));
             if shapes.insert(shape_key(&c.st.walk, uni)) && is_canonical(&c.st.walk) {
                 rep.canonical_states += 1;
             }
             if rep.samples.len() < 3 && c.st.depth >= 3 {
-                rep.samples.push(history(&meta, id).iter().map(|o| o.describe(uni)).collect::<Vec<_>>().join(" ; "));
+                rep.samples.push(history_of(&c.st.hist).iter().map(|o| o.describe(uni)).collect::<Vec<_>>().join(" ; "));
             }
             next.push((id, c.st));
         }
@@ -444,6 +480,15 @@ pub fn explore<S: Sut>(uni: &Universe, cfg: &Config, observers: &[(&'static str,
         rep.exhaustive = false;
         rep.cap_hit = Some(format!("stopped after layer {} because a violation was found", rep.layers));
     }
+    let mut found: Vec<Found> = all_viols
+        .into_iter()
+        .map(|(_, (cnt, mut f))| {
+            f.occurrences = cnt;
+            f
+        })
+        .collect();
+    found.sort_by(|a, b| (a.history.len(), &a.viol, &a.history).cmp(&(b.history.len(), &b.viol, &b.history)));
+    rep.found = found;
     rep.states = visited.len() as u64;
     rep.shape_states = shapes.len() as u64;
     let mut keys: Vec<&Box<[u8]>> = visited.keys().collect();
